@@ -128,4 +128,15 @@ theorem cidr_partition_eq (ver : Nat) (t e : Pfx) (ht : t.plen ≤ width ver) (h
 example : cidr_partition 4 0xC0000200 24 4 0xC0000240 28 =
     ([(0xC0000200, 26, 4)], [(0xC0000240, 28, 4)], [(0xC0000250, 28, 4), (0xC0000260, 27, 4), (0xC0000280, 25, 4)]) := by decide
 
+/-- `cidr_exclude(target, exclude)`: the blocks before and after, concatenated -/
+theorem cidr_exclude_eq (ver : Nat) (t e : Pfx) (ht : t.plen ≤ width ver) (he : e.plen ≤ width ver) :
+    cidr_exclude ver (t.val : Int) (t.plen : Int) ver (e.val : Int) (e.plen : Int) =
+      liftL ver (cidrExclude (width ver) t e) := by
+  unfold cidr_exclude cidrExclude
+  simp only [cidr_partition_eq ver t e ht he]
+  simp [liftL]
+
+example : cidr_exclude 4 0xC0000200 24 4 0xC0000240 28 =
+    [(0xC0000200, 26, 4), (0xC0000250, 28, 4), (0xC0000260, 27, 4), (0xC0000280, 25, 4)] := by decide
+
 end NV.Tie
